@@ -73,6 +73,7 @@ def setDisp (ds : List Disp) (i : Nat) (d : Disp) : List Disp := ds.set i d
 
 /-- `createConnection` -/
 def createConnection (s : St) : St × List Out :=
+  if s.nstate = .connecting ∨ s.nstate = .connected then (s, []) else     -- already up or on its way: ignored
   let i := s.disps.length
   ({ s with cur := some i, disps := s.disps ++ [{ open_ := true, established := false }], nstate := .connecting }, [.created i])
 
@@ -96,6 +97,7 @@ def handleClose (s : St) (d : Nat) : St × List Out :=
 /-- `destroyConnection`: state = DISCONNECTING; current dispatcher.disconnect() (= handle_close, also when the
     socket is already closed: asyncore's close() is idempotent but the callback still fires) -/
 def destroyConnection (s : St) : St × List Out :=
+  if s.nstate = .disconnected then (s, []) else      -- already disconnected: ignored
   match s.cur with
   | none => (s, [.raisedNotImplemented])        -- AttributeError on None: never reached under the alphabet's restriction
   | some d =>
@@ -110,6 +112,25 @@ def destroyConnection (s : St) : St × List Out :=
 /-- EVENT_STATE_DISCONNECT broadcast from the top: the iq layer stops its thread, the network layer destroys the connection -/
 def disconnectEvent (s : St) : St × List Out :=
   destroyConnection { s with pingThread := false, outstanding := 0 }
+
+/-- one queued continuation of a detached DISCONNECTED event: the rest of the stack sees it — noise reset,
+    keep-alive stopped, the interface layer reconnects if it was asked to -/
+def loopOne (s : St) : St × List Out :=
+  if s.pendingDown = 0 then (s, [])
+  else
+    let s1 := { s with pendingDown := s.pendingDown - 1, noiseFresh := true, pingThread := false, outstanding := 0 }
+    if s1.reconnectFlag then
+      let r := createConnection { s1 with reconnectFlag := false }
+      (r.1, .downAll :: r.2)
+    else (s1, [.downAll])
+
+/-- the stack's loop runs every queued callback -/
+def drain (s : St) : Nat → St × List Out
+  | 0 => (s, [])
+  | n + 1 =>
+    let r := loopOne s
+    let rest := drain r.1 n
+    (rest.1, r.2 ++ rest.2)
 
 def step (s : St) : In → St × List Out
   | .connectReq => createConnection { s with }      -- interface.connect(): no guard
@@ -158,15 +179,7 @@ def step (s : St) : In → St × List Out
            | none => ({ s with outstanding := n }, [.pingSent, .dropped]))
         | _, _ => ({ s with outstanding := n }, [.pingSent, .dropped])
   | .pong fresh => if fresh then ({ s with outstanding := 0 }, []) else (s, [])
-  | .loop =>
-    if s.pendingDown = 0 then (s, [])
-    else
-      -- the rest of the stack sees DISCONNECTED: noise reset, keep-alive stopped, interface reconnects if asked to
-      let s1 := { s with pendingDown := s.pendingDown - 1, noiseFresh := true, pingThread := false, outstanding := 0 }
-      if s1.reconnectFlag then
-        let r := createConnection { s1 with reconnectFlag := false }
-        (r.1, .downAll :: r.2)
-      else (s1, [.downAll])
+  | .loop => drain s s.pendingDown
   | .appSend =>
     match s.cur, s.connected with
     | some d, true =>
@@ -186,9 +199,9 @@ def run : St → List In → St × List Out
     connection is requested only while none is up or being established (what `connectEvt` guards and what the
     library's own reconnect does); dispatcher events refer to existing dispatchers. -/
 def Allowed (s : St) : In → Bool
-  | .disconnectReq => s.nstate == .connecting || s.nstate == .connected
-  | .connectReq => s.nstate == .disconnected && s.pendingDown == 0
-  | .connectEvt => s.nstate == .disconnected && s.pendingDown == 0
+  | .disconnectReq => true
+  | .connectReq => true
+  | .connectEvt => true
   | .dConnected d => decide (d < s.disps.length)
   | .dClosed d => decide (d < s.disps.length)
   | .success => s.nstate == .connected
